@@ -64,6 +64,13 @@ func main() {
 		Child:         child,
 		ClassifyDeath: classifyDeath,
 		Post: func(c *ev.Check, outs []*run.Outcome) {
+			mx := map[string]float64{}
+			for _, o := range outs {
+				if o != nil && o.WallS > mx[o.Batch.Kind] {
+					mx[o.Batch.Kind] = o.WallS
+				}
+			}
+			c.SetExtra("max_batch_wall_s_by_kind", mx)
 			for _, k := range []string{"rotations_judged", "rotation.nontrivial_both_halves", "rotation.background", "rotation.catchup", "restart.catchup_multi",
 				"tick.expect0", "tick.expect1", "tick.at3200", "tick.at3201", "restart.at3999", "restart.at4000",
 				"query.archived", "query.archived.fn", "fn.negated_slots", "query.live0", "query.live1", "query.future", "query.misaligned",
@@ -78,6 +85,10 @@ func main() {
 // by net/http; if it died holding the server lock the child then hangs until
 // the watchdog. The panic line on stderr is the refuting event.
 func classifyDeath(c *ev.Check, o *run.Outcome) bool {
+	if strings.Contains(o.Stderr, "server lived for longer than 120 seconds") {
+		c.Inconc(fmt.Sprintf("batch %d (%s): a test-mode server instance reached its 120 s life limit (machine too slow for this batch)", o.Batch.Index, o.Batch.Kind))
+		return true
+	}
 	line := run.CrashLine(o.Stderr)
 	i := strings.Index(line, "http: panic serving")
 	if i < 0 {
@@ -95,22 +106,39 @@ func classifyDeath(c *ev.Check, o *run.Outcome) bool {
 }
 
 func plan(tier string, seed int64) []run.Batch {
+	// Watchdogs are generous (CPU contention must not turn into a verdict); what
+	// bounds a batch is the 120 s life of a test-mode server instance, and every
+	// history restarts its server several times.
 	var bs []run.Batch
 	if tier == "thorough" {
-		// 100 batches × 15 histories = 1500 histories, plus 4 large-rotation batches
-		for i := 0; i < 100; i++ {
-			bs = append(bs, run.Batch{Kind: "histories", Seed: seed*100000 + int64(i), N: 15, TimeoutS: 110})
+		// 300 batches × 5 histories = 1500 histories, plus 4 large-rotation batches
+		for i := 0; i < 300; i++ {
+			bs = append(bs, run.Batch{Kind: "histories", Seed: seed*100000 + int64(i), N: 5, TimeoutS: 600})
 		}
 		for i := 0; i < 4; i++ {
-			bs = append(bs, run.Batch{Kind: "bigrot", Seed: seed*100000 + 9000 + int64(i), N: 1, TimeoutS: 110, Params: map[string]string{"devices": "200"}})
+			bs = append(bs, run.Batch{Kind: "bigrot", Seed: seed*100000 + 9000 + int64(i), N: 1, TimeoutS: 600, Params: map[string]string{"devices": "200"}})
 		}
 		return bs
 	}
 	for i := 0; i < 10; i++ {
-		bs = append(bs, run.Batch{Kind: "histories", Seed: seed*100000 + int64(i), N: 4, TimeoutS: 100})
+		bs = append(bs, run.Batch{Kind: "histories", Seed: seed*100000 + int64(i), N: 4, TimeoutS: 400})
 	}
-	bs = append(bs, run.Batch{Kind: "bigrot", Seed: seed*100000 + 9000, N: 1, TimeoutS: 100, Params: map[string]string{"devices": "40"}})
+	bs = append(bs, run.Batch{Kind: "bigrot", Seed: seed*100000 + 9000, N: 1, TimeoutS: 400, Params: map[string]string{"devices": "40"}})
 	return bs
+}
+
+// retry repeats an HTTP POST whose transport failed (the server closes idle
+// keep-alive connections after 2.5 s; a request written into such a
+// connection dies with EOF). All POSTs used here are idempotent.
+func retry(f func() error) error {
+	var err error
+	for i := 0; i < 3; i++ {
+		if err = f(); err == nil || !(strings.Contains(err.Error(), "EOF") || strings.Contains(err.Error(), "connection reset") || strings.Contains(err.Error(), "broken pipe")) {
+			return err
+		}
+		time.Sleep(5 * time.Millisecond)
+	}
+	return err
 }
 
 // ---------------------------------------------------------------- hook: snapshot before every rotation
@@ -175,22 +203,23 @@ type cell struct {
 
 type hist struct {
 	*drv.World
-	r     *ev.Result
-	rng   *rand.Rand
-	b     run.Batch
-	tag   string
-	devs  map[uint32]*drv.Dev // authorized and not banned (model)
-	gone  map[uint32]bool     // banned ids (model)
-	next  uint32
-	mdl   map[uint32]map[uint32]*cell // device → absolute slot → cell
-	off   uint32                      // model window offset
-	arch  []refenc.Stats              // records produced by judged rotations, as stored
-	archB []byte                      // reference serialization of arch
-	first map[int]*refenc.Stats       // first plain response served per archived week
-	ops   []string
-	opn   int
-	dead  bool // stop this history (precondition failed / server gone)
-	fatal bool // stop the child (a server may still be running)
+	r       *ev.Result
+	rng     *rand.Rand
+	b       run.Batch
+	tag     string
+	devs    map[uint32]*drv.Dev // authorized and not banned (model)
+	gone    map[uint32]bool     // banned ids (model)
+	next    uint32
+	pending map[uint32]*drv.Dev
+	mdl     map[uint32]map[uint32]*cell // device → absolute slot → cell
+	off     uint32                      // model window offset
+	arch    []refenc.Stats              // records produced by judged rotations, as stored
+	archB   []byte                      // reference serialization of arch
+	first   map[int]*refenc.Stats       // first plain response served per archived week
+	ops     []string
+	opn     int
+	dead    bool // stop this history (precondition failed / server gone)
+	fatal   bool // stop the child (a server may still be running)
 }
 
 func (h *hist) op(format string, a ...interface{}) {
@@ -406,7 +435,8 @@ func (h *hist) authorize() {
 	h.next += 1 + uint32(h.rng.Intn(5))
 	capa := uint64(1000 + h.rng.Intn(200000))
 	h.op("authorize id=%d capacity=%d", id, capa)
-	d, err := h.AddDevice(id, capa)
+	var d *drv.Dev
+	err := retry(func() (e error) { d, e = h.addDevice(id, capa); return })
 	h.r.Eval(1)
 	if err != nil {
 		h.precond("authorization of a fresh device was not accepted: %v", err)
@@ -416,6 +446,26 @@ func (h *hist) authorize() {
 	h.r.Count("authorizations", 1)
 }
 
+// addDevice authorizes a fresh device; key and authorization are drawn once
+// per id so that a retried POST repeats the same bytes.
+func (h *hist) addDevice(id uint32, capa uint64) (*drv.Dev, error) {
+	d := h.pending[id]
+	if d == nil {
+		k := refenc.GenKey(h.rng)
+		d = &drv.Dev{ID: id, Key: k, Auth: h.MkAuth(id, k.Pub, capa)}
+		h.pending[id] = d
+	}
+	st, body, err := h.Authorize(d.Auth)
+	if err != nil {
+		return nil, err
+	}
+	if st != 200 {
+		return nil, fmt.Errorf("authorization of device %d: status %d body %s", id, st, body)
+	}
+	h.Devs[id] = d
+	return d, nil
+}
+
 func (h *hist) ban() {
 	ds := h.sortedDevs()
 	if len(ds) < 2 {
@@ -423,7 +473,8 @@ func (h *hist) ban() {
 	}
 	d := ds[h.rng.Intn(len(ds))]
 	h.op("ban id=%d (conflicting authorization)", d.ID)
-	st, err := h.BanDevice(d.ID)
+	var st int
+	err := retry(func() (e error) { st, e = h.BanDevice(d.ID); return })
 	h.r.Eval(1)
 	sn := h.S.VerifSnapshot(false)
 	_, still := sn.Equipment[d.ID]
@@ -1005,7 +1056,7 @@ func (h *hist) stop() {
 func newHist(b run.Batch, r *ev.Result, idx int, ndev int) *hist {
 	rng := rand.New(rand.NewSource(b.Seed*1000 + int64(idx)))
 	h := &hist{r: r, rng: rng, b: b, tag: fmt.Sprintf("s%d.h%d", b.Seed, idx), devs: map[uint32]*drv.Dev{}, gone: map[uint32]bool{},
-		mdl: map[uint32]map[uint32]*cell{}, first: map[int]*refenc.Stats{}, next: 1 + uint32(rng.Intn(50))}
+		pending: map[uint32]*drv.Dev{}, mdl: map[uint32]map[uint32]*cell{}, first: map[int]*refenc.Stats{}, next: 1 + uint32(rng.Intn(50))}
 	drv.SetClock(0)
 	drv.GateRotation(true)
 	drv.GateImpact(true)
